@@ -535,8 +535,19 @@ func drivePointwise(r *rand.Rand, w *bufio.Writer, id int, cv *coverOut) {
 	var gens []iset
 	var cuts []uint64
 	var pts []uint64
-	mode := r.Intn(3)
+	mode := r.Intn(4)
 	switch mode {
+	case 3: // many runs of 3: both ends of every run trimmed (the number of runs never changes, the cardinality drops to a third)
+		nruns := 40 + r.Intn(60)
+		lo := base + uint64(r.Intn(30000))
+		var sp []span
+		for i := 0; i < nruns; i++ {
+			a := lo + uint64(10*i)
+			sp = append(sp, span{a, a + 2})
+			cuts = append(cuts, a, a+1, a+2, a+3)
+			pts = append(pts, a, a+2)
+		}
+		gens = append(gens, normalize(sp))
 	case 0: // a run, every other value removed
 		n := uint64(60 + 2*r.Intn(60))
 		lo := base + uint64(r.Intn(60000))
@@ -582,7 +593,7 @@ func drivePointwise(r *rand.Rand, w *bufio.Writer, id int, cv *coverOut) {
 	}
 	ga, _ := u.project(gens[0])
 	switch mode {
-	case 0:
+	case 0, 3:
 		e.run(Call{Op: "Build", Dst: 1, As: ga, Rcp: pick(r, []string{"R", "Ro", "Rok"})})
 		rm := pick(r, []string{"Remove", "CheckedRemove", "Flip1", "CheckedRemove"})
 		for _, v := range pts {
